@@ -93,7 +93,7 @@ func drvSess(args []string) int {
 	g.SetNamer(func(s erpc.Session) string { return Name(s) })
 	app := NewApp(rec, g)
 	disc := &DiscCounter{Rec: rec}
-	peer := erpc.NewPeer(erpc.PeerConfig{}, disc)
+	peer := erpc.NewPeer(erpc.PeerConfig{}, disc, preVeto{})
 	app.Routes(peer)
 
 	f, err := os.Open(*in)
@@ -151,6 +151,19 @@ func (r *sessRun) keyN(pt string, n int32) string {
 
 func (r *sessRun) driftf(format string, a ...interface{}) {
 	r.drift = append(r.drift, fmt.Sprintf(format, a...))
+}
+
+// preVeto refuses, before anything is written, the calls for preVetoRoute (and no others).
+type preVeto struct{}
+
+const preVetoRoute = "/pre/veto"
+
+func (preVeto) Name() string { return "verif-pre-veto" }
+func (preVeto) PreWriteCall(ctx erpc.WriteCtx) *erpc.Status {
+	if ctx.Output().ServiceMethod() == preVetoRoute {
+		return erpc.NewStatus(778, "refused", "scripted refusal before the write")
+	}
+	return nil
 }
 
 // sessNoisePeer serves the neighbouring connections of neighbourNoise: a peer of its own, without plugins or routes.
@@ -241,13 +254,18 @@ func (r *sessRun) run(n int, seed int64) {
 	}
 	r.sess = sess
 	r.rec.Emit("SessEst", "s", r.sn, "id", sess.ID())
-	if !strict && n%2 == 1 {
+	if !strict && n%4 == 1 {
 		// earlier on this session: a call that failed before anything was written (its context had been cancelled).
 		// It is over and done with; the calls of the scenario must be waited for, completed and counted as if it had
 		// never been made
 		cctx, cancel := context.WithCancel(context.Background())
 		cancel()
 		r.sess.Call(CallRoute, &Arg{Tag: "pre"}, nil, erpc.WithContext(cctx))
+		r.nseq++
+	}
+	if !strict && n%4 == 3 {
+		// ... or a call that a PreWriteCall plugin of this side refused (nothing was written either)
+		r.sess.Call(preVetoRoute, &Arg{Tag: "pre"}, nil)
 		r.nseq++
 	}
 	go r.rawReader()
